@@ -3,8 +3,8 @@
 From Coq Require Import Reals Lra List ZArith Bool.
 From Inferno Require Import Base.Num Base.NumR Gen.Interpolation Gen.Extrapolation C20.InterpProofs.
 Open Scope R_scope.
-Theorem roundtrip_expdecay : forall (s t p n dt : R) (tc : T RN),
-  roundtrip (fun a b c d : R => interp_expdecay RN a b c d tc)
-    (fun a b c d e : R => extrap_expdecay RN a b c d e tc) s t p n dt.
+Theorem roundtrip_expdecay : forall s t p n dt tc : T RN,
+  interp_expdecay RN (fst (extrap_expdecay RN s t p n dt tc))
+    (snd (extrap_expdecay RN s t p n dt tc)) t dt tc = s.
 Proof. exact (@Inferno.C20.InterpProofs.roundtrip_expdecay). Qed.
 Print Assumptions roundtrip_expdecay.
